@@ -236,10 +236,12 @@ fn fam_lzma(ctx: &CaseCtx, cov: &mut Cov) -> CaseOut {
         let witness = digest_differs || (props.lc + props.lp <= 3 && rng.chance(1, 8));
         let dbg_reset = if witness { normalize_debug(&format!("{:?}", dec)) } else { String::new() };
         let dbg_fresh = if witness { normalize_debug(&format!("{:?}", fresh)) } else { String::new() };
+        let ysel = case_hash(&[&y]);
         let run = |d: &mut lzma_rs::decompress::raw::LzmaDecoder| {
-            let sink = SharedSink::new();
+            // reader and sink behaviour vary with y, identically for both decoders
+            let sink = SharedSink::varied(ysel >> 8, 1 << 17);
             let obs = sut::new_obs(u64::MAX);
-            let c = sut::raw_lzma_decompress(d, &y, ReaderKind::Slice, &sink, &obs);
+            let c = sut::raw_lzma_decompress(d, &y, ReaderKind::from_selector(ysel), &sink, &obs);
             let syms = obs.borrow().syms;
             (Outcome { verdict: c.verdict, out: sink.bytes(), consumed: c.consumed }, syms)
         };
@@ -419,10 +421,11 @@ fn fam_lzma2(ctx: &CaseCtx, cov: &mut Cov) -> CaseOut {
         let witness = digest_differs || rng.chance(1, 8);
         let dbg_reset = if witness { normalize_debug(&format!("{:?}", dec)) } else { String::new() };
         let dbg_fresh = if witness { normalize_debug(&format!("{:?}", fresh)) } else { String::new() };
+        let ysel = case_hash(&[&y]);
         let run = |d: &mut Lzma2Decoder| {
-            let sink = SharedSink::new();
+            let sink = SharedSink::varied(ysel >> 8, 1 << 17);
             let obs = sut::new_obs(u64::MAX);
-            let c = sut::raw_lzma2_decompress(d, &y, ReaderKind::Slice, &sink, &obs);
+            let c = sut::raw_lzma2_decompress(d, &y, ReaderKind::from_selector(ysel), &sink, &obs);
             let syms = obs.borrow().syms;
             (Outcome { verdict: c.verdict, out: sink.bytes(), consumed: c.consumed }, syms)
         };
